@@ -98,11 +98,20 @@ def avpNew (tc : TimeConsts) (dict : DTree) (code vendor : Nat) (value : Option 
 
 /-- A grouped AVP made by `Avp.new(code, vendor, is_mandatory=…)` followed by
     `grouped.value = sub_avps`. -/
-def avpNewGrouped (tc : TimeConsts) (dict : DTree) (code vendor mandOv : Nat) (subs : List Avp) : R Avp := do
-  let a ← avpNew tc dict code vendor none mandOv 0
-  match encodeAvps subs with
-  | .ok b => pure { a with payload := b }
-  | .error _ => .error .avpEncode
+def avpNewGrouped (tc : TimeConsts) (dict : DTree) (code vendor mandOv : Nat) (subs : List Avp) : R Avp :=
+  match avpNew tc dict code vendor none mandOv 0 with
+  | .error e => .error e
+  | .ok a =>
+    -- `grouped_avp.value = sub_avps`: only `AvpGrouped` accepts a list; every
+    -- other typed setter rejects it (AvpEncodeError via generate's handler)
+    match lookupDict dict code vendor with
+    | some e =>
+      if e.ty == tagGrouped then
+        match encodeAvps subs with
+        | .ok b => .ok { a with payload := b }
+        | .error _ => .error .avpEncode
+      else .error .avpEncode
+    | none => .error .valueError
 
 def scalarArg (v : Value) : SetArg := reSetArg v
 
@@ -152,6 +161,14 @@ def genOne (tc : TimeConsts) (dict : DTree) (cs : List ClassDef) :
       vs.mapM fun _ => avpNewGrouped tc dict d.code d.vendor d.mand []
     else
       vs.mapM fun v => avpNew tc dict d.code d.vendor (some (scalarArg v)) d.mand 0
+  | _, d, .scalar (.avps l) =>
+    if d.tclass.isSome then do
+      let a ← avpNewGrouped tc dict d.code d.vendor d.mand []
+      pure [a]
+    else
+      -- a Python list under a definition without container class is iterated:
+      -- each member becomes the single member of its own AVP
+      l.mapM fun m => avpNew tc dict d.code d.vendor (some (.val (.avps [m]))) d.mand 0
   | _, d, .scalar v =>
     if d.tclass.isSome then do
       let a ← avpNewGrouped tc dict d.code d.vendor d.mand []
@@ -191,6 +208,18 @@ def initFields (c : ClassDef) : List (Nat × FVal) :=
 def setField (fields : List (Nat × FVal)) (k : Nat) (v : FVal) : List (Nat × FVal) :=
   if fields.any (fun p => p.1 == k) then fields.map (fun p => if p.1 == k then (k, v) else p)
   else fields ++ [(k, v)]
+
+/-- `cls()` followed by `setattr` of the given attributes, recursively: what the
+    harness's object literals denote (constructor defaults included). -/
+def instantiateFuel (cs : List ClassDef) : Nat → FVal → FVal
+  | 0, v => v
+  | fuel + 1, .obj cls fields extra =>
+    let init := match findClass cs cls with
+      | some c => initFields c
+      | none => []
+    .obj cls (fields.foldl (fun acc p => setField acc p.1 (instantiateFuel cs fuel p.2)) init) extra
+  | fuel + 1, .objs os => .objs (os.map (instantiateFuel cs fuel))
+  | _ + 1, v => v
 
 /-- `needed[f"{code}-{vendor}"]`: the dict comprehension keeps the *last*
     definition with a given key. -/
